@@ -34,6 +34,7 @@ type Node struct {
 	ArgC [][]int64 `json:"argc"`        // per child, per parameter constants
 	Kids []*Node  `json:"kids"`
 	Out  string   `json:"out"` // ret | unreachable | divzero | oob | panic | exit
+	RetForm int   `json:"ret_form,omitempty"` // wasm ret: 0 fall through, 1 return, 2 br to the function label, 3 br_if, 4 br_table
 	Code uint32   `json:"code,omitempty"`
 }
 
@@ -106,7 +107,7 @@ func (g *gen) konst() int64 {
 }
 
 func (g *gen) newNode(mod, form string, p, r []byte) *Node {
-	n := &Node{ID: len(g.p.Nodes) + 1, Mod: mod, Form: form, P: p, R: r, Out: "ret"}
+	n := &Node{ID: len(g.p.Nodes) + 1, Mod: mod, Form: form, P: p, R: r, Out: "ret", RetForm: g.r.Intn(5)}
 	for range r {
 		n.K = append(n.K, g.konst())
 	}
@@ -435,6 +436,18 @@ func (p *Program) body(m *wb.Mod, idx map[int]uint32, n *Node) []byte {
 			if t == wb.I32 {
 				b = append(b, wasm.OpcodeI32WrapI64)
 			}
+		}
+		switch n.RetForm {
+		case 1:
+			b = append(b, wasm.OpcodeReturn)
+		case 2:
+			b = append(b, wasm.OpcodeBr, 0)
+		case 3:
+			b = append(b, wb.I32Const(1)...)
+			b = append(b, wasm.OpcodeBrIf, 0)
+		case 4:
+			b = append(b, wb.I32Const(int32(n.ID%3))...)
+			b = append(b, wasm.OpcodeBrTable, 1, 0, 0)
 		}
 	case "unreachable":
 		b = append(b, wasm.OpcodeUnreachable)
